@@ -2,12 +2,30 @@
 
 Explicit-state search (in C, harness/e2_set.c) over the real splay tree: every reachable tree shape over a
 7-key universe, every operation from every shape, sorted-array reference + structural audit + cleanup
-ledger + ASan/LSan.  One search per stock comparator / key domain.
+ledger + ASan/LSan.  One search per stock comparator / key domain, on a set from set_alloc() and on an embedded
+(zero-filled, owner-initialised) one.  Depth, which 7 keys cannot give, comes from harness/e2_chain.c: every chain
+length 1..N (300 quick, 1000 thorough) x five sorted / alternating insertion orders x {find, lower, insert, remove,
+remove without disposal} x every position at and next to both ends and the middle, each from a rebuilt structure.
 """
 import json, os, subprocess, sys
 from .. import common, build
 
-DOMAINS = ['int-small', 'int-extreme', 'charp', 'voidp', 'ptr']
+DOMAINS = ['int-small', 'int-extreme', 'charp', 'voidp', 'ptr',
+           # the same search on a set that does not come from set_alloc(): a zero-filled struct whose compare/cleanup members the owner assigns,
+           # which is how src/log.c, src/module.c and src/config.c make theirs
+           'int-small@embedded', 'charp@embedded']
+
+def run_chains(b, maxn, embedded):
+    p = subprocess.run([os.path.join(b, 'core_vh'), 'set', 'chains', str(maxn), str(embedded)], stdout=subprocess.PIPE, stderr=subprocess.PIPE, text=True)
+    viols, summary = [], None
+    for line in p.stdout.splitlines():
+        try:
+            o = json.loads(line)
+        except ValueError:
+            continue
+        if 'violation' in o: viols.append(o['violation'])
+        if 'summary' in o: summary = o['summary']
+    return p.returncode, viols, summary, p.stderr
 
 def run_domain(b, dom):
     p = subprocess.run([os.path.join(b, 'core_vh'), 'set', 'bfs', dom], stdout=subprocess.PIPE, stderr=subprocess.PIPE, text=True)
@@ -60,11 +78,29 @@ def main(tier):
         if rc not in (0, 1) and not viols:
             run.violation('set/%s/sanitizer' % dom, 'sanitizer report during search over %s: %s' % (dom, err.strip().splitlines()[:4]),
                           {'engine': 'core_vh set bfs', 'domain': dom, 'stderr': err[-4000:]})
+    # depth: every chain length 1..N x insertion order family x operation x position (harness/e2_chain.c)
+    chains = {}
+    maxn = 300 if run.tier == 'quick' else 1000
+    for emb in (0, 1):
+        rc, viols, summary, err = run_chains(b, maxn, emb)
+        name = 'chains' + ('@embedded' if emb else '')
+        if summary is None:
+            run.violation('set/%s/crash' % name, 'chain enumeration died (rc=%d): %s' % (rc, err.strip().splitlines()[:3]), {'engine': 'core_vh set chains', 'maxn': maxn, 'embedded': emb, 'stderr': err[-4000:]})
+            exhaustive = False
+            continue
+        chains[name] = summary
+        transitions += summary['runs']; replays += summary['runs']
+        for v in viols:
+            run.violation('set/%s/%s' % (name, 'structure' if v['detail'].startswith('audit') or 'list' in v['detail'] else 'result'),
+                          '%s: %d keys inserted %s, then %s(%d) -> %s' % (name, v['n'], v['shape'], v['op'], v['key'], v['detail']),
+                          {'engine': 'core_vh set chains', 'maxn': v['n'], 'embedded': emb}, dedup='%s|%s|%s' % (name, v['op'], v['detail'].split(':')[0][:30]))
+        if rc not in (0, 1) and not viols:
+            run.violation('set/%s/sanitizer' % name, 'sanitizer report during chain enumeration: %s' % (err.strip().splitlines()[:4]), {'engine': 'core_vh set chains', 'maxn': maxn, 'embedded': emb, 'stderr': err[-4000:]})
     if states < 5 * 1000 and not run.violations and not run.capped:
         raise common.HarnessError('vacuous: only %d states' % states)
     cov = {
         'states': states, 'transitions': transitions, 'traces_validated_against_impl': replays,
-        'samples': samples, 'exhaustive': exhaustive, 'per_domain': per, 'ubsan_reports': ubsan,
+        'samples': samples, 'exhaustive': exhaustive, 'per_domain': per, 'ubsan_reports': ubsan, 'chains': chains,
         'explanation': 'every transition is an execution of the real set.c: the structure is rebuilt from its operation history on a fresh set, '
                        'one operation applied, result/size/membership compared with a sorted-array reference, tree+list audited, cleanup ledger checked; '
                        'states are canonical tree shapes (pre-order of key indices); the search runs to a fixpoint so histories of every length over 7 keys are covered',
@@ -75,6 +111,9 @@ def main(tier):
 def replay(obj):
     b = build.build()
     r = obj['replay']
+    if r.get('engine') == 'core_vh set chains' and 'maxn' in r:
+        p = subprocess.run([os.path.join(b, 'core_vh'), 'set', 'chains', str(r['maxn']), str(r['embedded'])])
+        return 1 if p.returncode else 0
     if 'ops' not in r:
         print(r.get('stderr', '')); return 1
     p = subprocess.run([os.path.join(b, 'core_vh'), 'set', 'replay', r['domain']] + r['ops'])
